@@ -1006,6 +1006,9 @@ class UpnpStateVariable(Generic[T]):
     def coerce_upnp(self, value: Any) -> str:
         """Coerce value from python to UPNP."""
         coercer = self.data_type_mapping["out"]
+        if isinstance(value, bool) and self.data_type_python is int:
+            # A bool passes validation as an int; its UPnP value is the number.
+            value = int(value)
         coerced_value: str = coercer(value)
         return coerced_value
 
